@@ -253,6 +253,7 @@ class FSM(addons.AddonPersistence, block.SBlock):
         self._on_notrans = block.event_tuple(on_notrans)
         self._state: str|block._UndefType = block.UNDEF
         self._active_timer: asyncio.TimerHandle|None = None
+        self._stopped = False
         self._fsm_event_active = False
         # scheduled event in chained state transition, format: (event, data, newstate)
         self._next_event: tuple[str|block.EventType, Mapping, str]|None = None
@@ -324,6 +325,9 @@ class FSM(addons.AddonPersistence, block.SBlock):
     def stop(self) -> None:
         """Cleanup."""
         self._stop_timer()
+        # events may still arrive during the cleanup (e.g. triggered by stop_data
+        # of an output block), but no timer may outlive the simulation
+        self._stopped = True
         super().stop()
 
     def _timer_expired(self, timed_event: str|block.EventType) -> None:
@@ -335,6 +339,9 @@ class FSM(addons.AddonPersistence, block.SBlock):
 
     def _set_timer(self, duration: float, timed_event: str|block.EventType) -> None:
         """Start the timer (low-level)."""
+        if self._stopped:
+            self.log_debug("timer: not started, the block was stopped")
+            return
         self.log_debug("timer: %.3fs before %s", duration, timed_event)
         self._active_timer = asyncio.get_running_loop().call_later(
             duration, self._timer_expired, timed_event)
